@@ -405,6 +405,52 @@ class Generated:
         return out, misuse
 
 
+def wrapper_hands_over(ctx, w, gen_name, takes_self):
+    """Interpret the wrapper method of the table on one handler that does / does not take `self`:
+    -> (positional args, keyword args) it hands to the generator (a stub)."""
+    from ..metainterp import HostFn, HostInterp, Raised, Record
+
+    got = {}
+
+    def generator(*a, **k):
+        got["args"], got["kwargs"] = a, k
+        return Record(kind="dispatcher")
+
+    h = Record(kind="handler", __name__="h")
+    me = Record(type_tuples={h: ("T",)}, name="tbl", dispatch_id=Record(kind="counter"), dependent={h: True})
+    for c in ast.walk(w.node):
+        if isinstance(c, ast.Call) and isinstance(c.func, ast.Attribute) and isinstance(c.func.value, ast.Name) and c.func.value.id == w.params[0] and c.func.attr not in me.__dict__:
+            setattr(me, c.func.attr, HostFn(lambda *a, **k: Record(kind="error", args=a)))
+    genv = {gen_name: generator, "inspect": Record(getfullargspec=HostFn(lambda f: Record(args=(["self", "x"] if takes_self else ["x"]), varargs=None)), signature=HostFn(lambda f: Record(parameters={n: Record(name=n) for n in (["self", "x"] if takes_self else ["x"])})))}
+    funcs = {n: f.node for n, f in w.module.funcs.items() if f.parent is None and f.cls is None}
+    hi = HostInterp({}, me, {}, globals_env=genv, classes={}, functions=funcs)
+    params = [p for p in w.params[1:]]
+    vals = {"tup": ("T",), "handlers": [h], "group": [Record(handler=h)], "next_call": None}
+    args = [me] + [vals.get(p, ("T",) if i == 0 else [h] if i == 1 else [Record(handler=h)] if i == 2 else None) for i, p in enumerate(params)]
+    try:
+        hi.call_function(w.node, args, {}, {})
+    except (AnalysisError, Raised, TypeError, AttributeError, KeyError) as e:
+        raise AnalysisError(f"{w.key}: not interpretable on a stand-in handler: {e}")
+    if "args" not in got:
+        raise AnalysisError(f"{w.key}: the generator is not called")
+    return got["args"], got["kwargs"]
+
+
+def _slf_param_by_interpretation(ctx, w, wcall, params):
+    """The generator parameter that receives 'self, ' for a handler taking self and '' otherwise, or None."""
+    from ..model import call_name
+
+    try:
+        a1, k1 = wrapper_hands_over(ctx, w, call_name(wcall), True)
+        a0, k0 = wrapper_hands_over(ctx, w, call_name(wcall), False)
+    except AnalysisError:
+        return None
+    b1 = dict(zip(params, a1), **k1)
+    b0 = dict(zip(params, a0), **k0)
+    hits = [p for p in params if b1.get(p) == "self, " and b0.get(p) == ""]
+    return hits[0] if len(hits) == 1 else None
+
+
 def _roles(ctx, w, wcall, params):
     """parameter of the generator -> role, from what the wrap site passes."""
     from ..model import call_name, dotted, str_value
@@ -451,6 +497,9 @@ def _roles(ctx, w, wcall, params):
             if all(isinstance(x, ast.Constant) and isinstance(x.value, str) for x in vals):
                 str_locals.add(s.targets[0].id)
     slf = [p for p in rest if dotted(passed.get(p)) in str_locals]
+    if len(slf) != 1:
+        by_run = _slf_param_by_interpretation(ctx, w, wcall, params)
+        slf = [by_run] if by_run in rest else slf
     if len(slf) != 1:
         raise AnalysisError(f"{w.key}: the self prefix handed to the generator was not found")
     roles[slf[0]] = "slf"
